@@ -11,8 +11,11 @@
    non-nil empty slice and decodes it back to a non-nil empty slice). Unmarshal MERGES into the
    receiver exactly as the generated code does (scalars overwritten, repeated fields appended,
    embedded messages merged). `int` is 64 bits.
+   Field numbers (fn_T_F), wire types (wt_T_F) and tag bytes (tg_T_F) come from Stream/Consts.v, which the
+   harness regenerates from the Unmarshal switch cases and the MarshalTo tag assignments of raft.pb.go (go/ast).
    No proofs in this file (self-contained: used only by the Stream group). *)
 From ZV Require Export Common.Bytes.
+From ZV Require Import Stream.Consts.
 Open Scope N_scope.
 
 Definition len (b : bytes) : N := N.of_nat (length b).
@@ -179,35 +182,36 @@ Definition obfield_size (d : option bytes) : N :=
 Definition group_size (g : group) : N :=
   vfield_size (g_node g) + bfield_size (len (g_name g)) + vfield_size (g_gid g) + vfield_size (g_rid g).
 Definition group_marshal (g : group) : bytes :=
-  vfield 8 (g_node g) ++ bfield 18 (g_name g) ++ vfield 24 (g_gid g) ++ vfield 32 (g_rid g).
+  vfield tg_Group_NodeId (g_node g) ++ bfield tg_Group_Name (g_name g) ++ vfield tg_Group_GroupId (g_gid g) ++ vfield tg_Group_RaftReplicaId (g_rid g).
 
 Definition entry_size (e : entry) : N :=
   vfield_size (sext32 (e_type e)) + vfield_size (e_term e) + vfield_size (e_index e) +
   obfield_size (e_data e) + vfield_size (e_id e) + vfield_size (sext32 (e_dtype e)) + vfield_size (e_ts e).
 Definition entry_marshal (e : entry) : bytes :=
-  vfield 8 (sext32 (e_type e)) ++ vfield 16 (e_term e) ++ vfield 24 (e_index e) ++
-  obfield 34 (e_data e) ++ vfield 40 (e_id e) ++ vfield 48 (sext32 (e_dtype e)) ++ vfield 56 (e_ts e).
+  vfield tg_Entry_Type (sext32 (e_type e)) ++ vfield tg_Entry_Term (e_term e) ++ vfield tg_Entry_Index (e_index e) ++
+  obfield tg_Entry_Data (e_data e) ++ vfield tg_Entry_ID (e_id e) ++ vfield tg_Entry_DataType (sext32 (e_dtype e)) ++
+  vfield tg_Entry_Timestamp (e_ts e).
 
 Definition sum_map {A} (f : A -> N) (l : list A) : N := fold_right (fun a s => f a + s) 0 l.
 Definition conf_size (c : confstate) : N :=
   sum_map vfield_size (c_nodes c) + sum_map (fun g => bfield_size (group_size g)) (c_groups c) +
   sum_map vfield_size (c_learners c) + sum_map (fun g => bfield_size (group_size g)) (c_lgroups c).
 Definition conf_marshal (c : confstate) : bytes :=
-  concat (map (vfield 8) (c_nodes c)) ++
-  concat (map (fun g => 18 :: varint_enc (group_size g) ++ group_marshal g) (c_groups c)) ++
-  concat (map (vfield 24) (c_learners c)) ++
-  concat (map (fun g => 34 :: varint_enc (group_size g) ++ group_marshal g) (c_lgroups c)).
+  concat (map (vfield tg_ConfState_Nodes) (c_nodes c)) ++
+  concat (map (fun g => tg_ConfState_Groups :: varint_enc (group_size g) ++ group_marshal g) (c_groups c)) ++
+  concat (map (vfield tg_ConfState_Learners) (c_learners c)) ++
+  concat (map (fun g => tg_ConfState_LearnerGroups :: varint_enc (group_size g) ++ group_marshal g) (c_lgroups c)).
 
 Definition meta_size (s : snapmeta) : N :=
   bfield_size (conf_size (sm_conf s)) + vfield_size (sm_index s) + vfield_size (sm_term s).
 Definition meta_marshal (s : snapmeta) : bytes :=
-  10 :: varint_enc (conf_size (sm_conf s)) ++ conf_marshal (sm_conf s) ++
-  vfield 16 (sm_index s) ++ vfield 24 (sm_term s).
+  tg_SnapshotMetadata_ConfState :: varint_enc (conf_size (sm_conf s)) ++ conf_marshal (sm_conf s) ++
+  vfield tg_SnapshotMetadata_Index (sm_index s) ++ vfield tg_SnapshotMetadata_Term (sm_term s).
 
 Definition snap_size (s : snapshot) : N :=
   obfield_size (s_data s) + bfield_size (meta_size (s_meta s)).
 Definition snap_marshal (s : snapshot) : bytes :=
-  obfield 10 (s_data s) ++ 18 :: varint_enc (meta_size (s_meta s)) ++ meta_marshal (s_meta s).
+  obfield tg_Snapshot_Data (s_data s) ++ tg_Snapshot_Metadata :: varint_enc (meta_size (s_meta s)) ++ meta_marshal (s_meta s).
 
 Definition msg_size (m : message) : N :=
   vfield_size (sext32 (m_type m)) + vfield_size (m_to m) + vfield_size (m_from m) + vfield_size (m_term m) +
@@ -216,16 +220,16 @@ Definition msg_size (m : message) : N :=
   vfield_size (m_commit m) + bfield_size (snap_size (m_snap m)) + 2 + vfield_size (m_rhint m) +
   obfield_size (m_ctx m) + bfield_size (group_size (m_fromg m)) + bfield_size (group_size (m_tog m)).
 Definition msg_marshal (m : message) : bytes :=
-  vfield 8 (sext32 (m_type m)) ++ vfield 16 (m_to m) ++ vfield 24 (m_from m) ++ vfield 32 (m_term m) ++
-  vfield 40 (m_logterm m) ++ vfield 48 (m_index m) ++
-  concat (map (fun e => 58 :: varint_enc (entry_size e) ++ entry_marshal e) (m_entries m)) ++
-  vfield 64 (m_commit m) ++
-  (74 :: varint_enc (snap_size (m_snap m)) ++ snap_marshal (m_snap m)) ++
-  [80; if m_reject m then 1 else 0] ++
-  vfield 88 (m_rhint m) ++
-  obfield 98 (m_ctx m) ++
-  (106 :: varint_enc (group_size (m_fromg m)) ++ group_marshal (m_fromg m)) ++
-  (114 :: varint_enc (group_size (m_tog m)) ++ group_marshal (m_tog m)).
+  vfield tg_Message_Type (sext32 (m_type m)) ++ vfield tg_Message_To (m_to m) ++ vfield tg_Message_From (m_from m) ++
+  vfield tg_Message_Term (m_term m) ++ vfield tg_Message_LogTerm (m_logterm m) ++ vfield tg_Message_Index (m_index m) ++
+  concat (map (fun e => tg_Message_Entries :: varint_enc (entry_size e) ++ entry_marshal e) (m_entries m)) ++
+  vfield tg_Message_Commit (m_commit m) ++
+  (tg_Message_Snapshot :: varint_enc (snap_size (m_snap m)) ++ snap_marshal (m_snap m)) ++
+  [tg_Message_Reject; if m_reject m then 1 else 0] ++
+  vfield tg_Message_RejectHint (m_rhint m) ++
+  obfield tg_Message_Context (m_ctx m) ++
+  (tg_Message_FromGroup :: varint_enc (group_size (m_fromg m)) ++ group_marshal (m_fromg m)) ++
+  (tg_Message_ToGroup :: varint_enc (group_size (m_tog m)) ++ group_marshal (m_tog m)).
 
 (* ---------- Unmarshal() ---------- *)
 (* setters *)
@@ -304,28 +308,24 @@ Definition unmarshal_with {X : Type} (step : N -> X -> bytes -> res (X * bytes))
 (* Group.Unmarshal *)
 Definition group_step (l : N) (g : group) (rest : bytes) : res (group * bytes) :=
   do '(fnum, wt, r1) <- read_tag rest ;
-  match fnum with
-  | 1 => do '(v, r2) <- vread wt r1 ; Ok (set_g_node v g, r2)
-  | 2 => do '(d, r2) <- bread wt l r1 ; Ok (set_g_name d g, r2)
-  | 3 => do '(v, r2) <- vread wt r1 ; Ok (set_g_gid v g, r2)
-  | 4 => do '(v, r2) <- vread wt r1 ; Ok (set_g_rid v g, r2)
-  | _ => do r2 <- skip_field l rest ; Ok (g, r2)
-  end.
+  if fnum =? fn_Group_NodeId then do '(v, r2) <- vread wt r1 ; Ok (set_g_node v g, r2)
+  else if fnum =? fn_Group_Name then do '(d, r2) <- bread wt l r1 ; Ok (set_g_name d g, r2)
+  else if fnum =? fn_Group_GroupId then do '(v, r2) <- vread wt r1 ; Ok (set_g_gid v g, r2)
+  else if fnum =? fn_Group_RaftReplicaId then do '(v, r2) <- vread wt r1 ; Ok (set_g_rid v g, r2)
+  else do r2 <- skip_field l rest ; Ok (g, r2).
 Definition group_unmarshal_into : group -> bytes -> res group := unmarshal_with group_step.
 
 (* Entry.Unmarshal *)
 Definition entry_step (l : N) (e : entry) (rest : bytes) : res (entry * bytes) :=
   do '(fnum, wt, r1) <- read_tag rest ;
-  match fnum with
-  | 1 => do '(v, r2) <- vread wt r1 ; Ok (set_e_type (low32 v) e, r2)
-  | 2 => do '(v, r2) <- vread wt r1 ; Ok (set_e_term v e, r2)
-  | 3 => do '(v, r2) <- vread wt r1 ; Ok (set_e_index v e, r2)
-  | 4 => do '(d, r2) <- bread wt l r1 ; Ok (set_e_data (Some d) e, r2)
-  | 5 => do '(v, r2) <- vread wt r1 ; Ok (set_e_id v e, r2)
-  | 6 => do '(v, r2) <- vread wt r1 ; Ok (set_e_dtype (low32 v) e, r2)
-  | 7 => do '(v, r2) <- vread wt r1 ; Ok (set_e_ts v e, r2)
-  | _ => do r2 <- skip_field l rest ; Ok (e, r2)
-  end.
+  if fnum =? fn_Entry_Type then do '(v, r2) <- vread wt r1 ; Ok (set_e_type (low32 v) e, r2)
+  else if fnum =? fn_Entry_Term then do '(v, r2) <- vread wt r1 ; Ok (set_e_term v e, r2)
+  else if fnum =? fn_Entry_Index then do '(v, r2) <- vread wt r1 ; Ok (set_e_index v e, r2)
+  else if fnum =? fn_Entry_Data then do '(d, r2) <- bread wt l r1 ; Ok (set_e_data (Some d) e, r2)
+  else if fnum =? fn_Entry_ID then do '(v, r2) <- vread wt r1 ; Ok (set_e_id v e, r2)
+  else if fnum =? fn_Entry_DataType then do '(v, r2) <- vread wt r1 ; Ok (set_e_dtype (low32 v) e, r2)
+  else if fnum =? fn_Entry_Timestamp then do '(v, r2) <- vread wt r1 ; Ok (set_e_ts v e, r2)
+  else do r2 <- skip_field l rest ; Ok (e, r2).
 Definition entry_unmarshal_into : entry -> bytes -> res entry := unmarshal_with entry_step.
 
 (* packed repeated uint64 (ConfState.Nodes / Learners, wire type 2):
@@ -347,72 +347,64 @@ Definition nums_read (wt l : N) (acc : list N) (r1 : bytes) : res (list N * byte
 (* ConfState.Unmarshal *)
 Definition conf_step (l : N) (c : confstate) (rest : bytes) : res (confstate * bytes) :=
   do '(fnum, wt, r1) <- read_tag rest ;
-  match fnum with
-  | 1 => do '(ns, r2) <- nums_read wt l (c_nodes c) r1 ; Ok (set_c_nodes ns c, r2)
-  | 2 => do '(d, r2) <- bread wt l r1 ;
+  if fnum =? fn_ConfState_Nodes then do '(ns, r2) <- nums_read wt l (c_nodes c) r1 ; Ok (set_c_nodes ns c, r2)
+  else if fnum =? fn_ConfState_Groups then do '(d, r2) <- bread wt l r1 ;
          do g <- group_unmarshal_into group0 d ;
          Ok (set_c_groups (c_groups c ++ [g]) c, r2)
-  | 3 => do '(ns, r2) <- nums_read wt l (c_learners c) r1 ; Ok (set_c_learners ns c, r2)
-  | 4 => do '(d, r2) <- bread wt l r1 ;
+  else if fnum =? fn_ConfState_Learners then do '(ns, r2) <- nums_read wt l (c_learners c) r1 ; Ok (set_c_learners ns c, r2)
+  else if fnum =? fn_ConfState_LearnerGroups then do '(d, r2) <- bread wt l r1 ;
          do g <- group_unmarshal_into group0 d ;
          Ok (set_c_lgroups (c_lgroups c ++ [g]) c, r2)
-  | _ => do r2 <- skip_field l rest ; Ok (c, r2)
-  end.
+  else do r2 <- skip_field l rest ; Ok (c, r2).
 Definition conf_unmarshal_into : confstate -> bytes -> res confstate := unmarshal_with conf_step.
 
 (* SnapshotMetadata.Unmarshal *)
 Definition meta_step (l : N) (s : snapmeta) (rest : bytes) : res (snapmeta * bytes) :=
   do '(fnum, wt, r1) <- read_tag rest ;
-  match fnum with
-  | 1 => do '(d, r2) <- bread wt l r1 ;
+  if fnum =? fn_SnapshotMetadata_ConfState then do '(d, r2) <- bread wt l r1 ;
          do c <- conf_unmarshal_into (sm_conf s) d ;
          Ok (set_sm_conf c s, r2)
-  | 2 => do '(v, r2) <- vread wt r1 ; Ok (set_sm_index v s, r2)
-  | 3 => do '(v, r2) <- vread wt r1 ; Ok (set_sm_term v s, r2)
-  | _ => do r2 <- skip_field l rest ; Ok (s, r2)
-  end.
+  else if fnum =? fn_SnapshotMetadata_Index then do '(v, r2) <- vread wt r1 ; Ok (set_sm_index v s, r2)
+  else if fnum =? fn_SnapshotMetadata_Term then do '(v, r2) <- vread wt r1 ; Ok (set_sm_term v s, r2)
+  else do r2 <- skip_field l rest ; Ok (s, r2).
 Definition meta_unmarshal_into : snapmeta -> bytes -> res snapmeta := unmarshal_with meta_step.
 
 (* Snapshot.Unmarshal *)
 Definition snap_step (l : N) (s : snapshot) (rest : bytes) : res (snapshot * bytes) :=
   do '(fnum, wt, r1) <- read_tag rest ;
-  match fnum with
-  | 1 => do '(d, r2) <- bread wt l r1 ; Ok (set_s_data (Some d) s, r2)
-  | 2 => do '(d, r2) <- bread wt l r1 ;
+  if fnum =? fn_Snapshot_Data then do '(d, r2) <- bread wt l r1 ; Ok (set_s_data (Some d) s, r2)
+  else if fnum =? fn_Snapshot_Metadata then do '(d, r2) <- bread wt l r1 ;
          do md <- meta_unmarshal_into (s_meta s) d ;
          Ok (set_s_meta md s, r2)
-  | _ => do r2 <- skip_field l rest ; Ok (s, r2)
-  end.
+  else do r2 <- skip_field l rest ; Ok (s, r2).
 Definition snap_unmarshal_into : snapshot -> bytes -> res snapshot := unmarshal_with snap_step.
 
 (* Message.Unmarshal.  Note field 10: `var v int; ...; m.Reject = bool(v != 0)`. *)
 Definition msg_step (l : N) (m : message) (rest : bytes) : res (message * bytes) :=
   do '(fnum, wt, r1) <- read_tag rest ;
-  match fnum with
-  | 1 => do '(v, r2) <- vread wt r1 ; Ok (set_m_type (low32 v) m, r2)
-  | 2 => do '(v, r2) <- vread wt r1 ; Ok (set_m_to v m, r2)
-  | 3 => do '(v, r2) <- vread wt r1 ; Ok (set_m_from v m, r2)
-  | 4 => do '(v, r2) <- vread wt r1 ; Ok (set_m_term v m, r2)
-  | 5 => do '(v, r2) <- vread wt r1 ; Ok (set_m_logterm v m, r2)
-  | 6 => do '(v, r2) <- vread wt r1 ; Ok (set_m_index v m, r2)
-  | 7 => do '(d, r2) <- bread wt l r1 ;
+  if fnum =? fn_Message_Type then do '(v, r2) <- vread wt r1 ; Ok (set_m_type (low32 v) m, r2)
+  else if fnum =? fn_Message_To then do '(v, r2) <- vread wt r1 ; Ok (set_m_to v m, r2)
+  else if fnum =? fn_Message_From then do '(v, r2) <- vread wt r1 ; Ok (set_m_from v m, r2)
+  else if fnum =? fn_Message_Term then do '(v, r2) <- vread wt r1 ; Ok (set_m_term v m, r2)
+  else if fnum =? fn_Message_LogTerm then do '(v, r2) <- vread wt r1 ; Ok (set_m_logterm v m, r2)
+  else if fnum =? fn_Message_Index then do '(v, r2) <- vread wt r1 ; Ok (set_m_index v m, r2)
+  else if fnum =? fn_Message_Entries then do '(d, r2) <- bread wt l r1 ;
          do e <- entry_unmarshal_into entry0 d ;
          Ok (set_m_entries (m_entries m ++ [e]) m, r2)
-  | 8 => do '(v, r2) <- vread wt r1 ; Ok (set_m_commit v m, r2)
-  | 9 => do '(d, r2) <- bread wt l r1 ;
+  else if fnum =? fn_Message_Commit then do '(v, r2) <- vread wt r1 ; Ok (set_m_commit v m, r2)
+  else if fnum =? fn_Message_Snapshot then do '(d, r2) <- bread wt l r1 ;
          do s <- snap_unmarshal_into (m_snap m) d ;
          Ok (set_m_snap s m, r2)
-  | 10 => do '(v, r2) <- vread wt r1 ; Ok (set_m_reject (negb (v =? 0)) m, r2)
-  | 11 => do '(v, r2) <- vread wt r1 ; Ok (set_m_rhint v m, r2)
-  | 12 => do '(d, r2) <- bread wt l r1 ; Ok (set_m_ctx (Some d) m, r2)
-  | 13 => do '(d, r2) <- bread wt l r1 ;
+  else if fnum =? fn_Message_Reject then do '(v, r2) <- vread wt r1 ; Ok (set_m_reject (negb (v =? 0)) m, r2)
+  else if fnum =? fn_Message_RejectHint then do '(v, r2) <- vread wt r1 ; Ok (set_m_rhint v m, r2)
+  else if fnum =? fn_Message_Context then do '(d, r2) <- bread wt l r1 ; Ok (set_m_ctx (Some d) m, r2)
+  else if fnum =? fn_Message_FromGroup then do '(d, r2) <- bread wt l r1 ;
           do g <- group_unmarshal_into (m_fromg m) d ;
           Ok (set_m_fromg g m, r2)
-  | 14 => do '(d, r2) <- bread wt l r1 ;
+  else if fnum =? fn_Message_ToGroup then do '(d, r2) <- bread wt l r1 ;
           do g <- group_unmarshal_into (m_tog m) d ;
           Ok (set_m_tog g m, r2)
-  | _ => do r2 <- skip_field l rest ; Ok (m, r2)
-  end.
+  else do r2 <- skip_field l rest ; Ok (m, r2).
 Definition msg_unmarshal_into : message -> bytes -> res message := unmarshal_with msg_step.
 
 Definition msg_unmarshal (bs : bytes) : res message := msg_unmarshal_into msg0 bs.
